@@ -156,3 +156,9 @@ pub fn reference_id_raw(id: crate::ReferenceId) -> u32 {
     u32::from_be_bytes(id.to_bytes())
 }
 // --- END wsB C38
+
+// --- Kalman world
+pub use crate::algorithm::kalman_verif_hook as kalman;
+pub use crate::algorithm::{
+    InternalMeasurement, InternalSourceController, InternalStateUpdate, InternalTimeSyncController,
+};
